@@ -14,7 +14,8 @@ RULE = ("refit:<class>: for every fit-able registry class Hypothesis draws a con
         "fitted attributes) equals that of clone(instance).fit(same data) under the same seed (exact, one thread), and a second fresh "
         "clone fitted under the same seed agrees too. random-state: KMeansL1L2 with an int random_state (documented as making it "
         "deterministic) gives the same model under two different global seeds; the same comparison for PermutationReciprocalTransformer, "
-        "PiecewiseClassifier and ConstraintKMeans is reported as a label only. Non-trivial: a history with >=2 fits on data sets that "
+        "PiecewiseClassifier and ConstraintKMeans is reported as a label only. interpreters: 3-5 fits (string-labelled permutations and classifiers, frames of categories, "
+        "corpora, any registry class) are run in two fresh interpreters started with different PYTHONHASHSEED values and must give bit-identical fingerprints. Non-trivial: a history with >=2 fits on data sets that "
         "differ in n, d or labels; randomness actually consumed (clause 3). Distinct by case JSON.")
 ASSUMPTIONS = ["one BLAS/OpenMP thread; exact equality is demanded because both sides run the same arithmetic",
                "ApproximateNMFPredictor is compared at 1e-9 (coordinate descent order is deterministic but the SVD sign is normalised by scikit-learn)"]
@@ -115,6 +116,81 @@ def _rs_cases(draw, tier="quick"):
     return dict(cls=name, spec=spec, data=entry.data(draw), seeds=[draw(st.integers(0, 10**6)), draw(st.integers(10**6 + 1, 2 * 10**6))])
 
 
+# ------------------------------------------------------------------------------- two interpreters
+WORDS = ["a", "no", "yes", "b", "abc", "positive", "negative", "0", "10", "x y", "N", "maybe not", "red", "green", "blue", "é"]
+
+
+def _interp(subs, salt):
+    import json
+    import os
+    import subprocess
+    import sys
+    env = dict(os.environ, PYTHONHASHSEED=str(salt))
+    root = os.path.dirname(os.path.dirname(os.path.dirname(os.path.abspath(__file__))))
+    env["PYTHONPATH"] = root + os.pathsep + env.get("PYTHONPATH", "")
+    r = subprocess.run([sys.executable, "-m", "vf.hashworker"], input=json.dumps(subs), capture_output=True, text=True, env=env, cwd=root)
+    if r.returncode != 0:
+        raise RuntimeError("hashworker failed (salt %s): %s" % (salt, r.stderr[-800:]))
+    doc = json.loads(r.stdout)
+    assert doc["hashseed"] == str(salt)
+    return doc["results"]
+
+
+def check_interpreters(case):
+    """the same fits in two fresh interpreters whose string-hash salts differ: same data, parameters and NumPy seed => same models"""
+    subs = case["subs"]
+    a = _interp(subs, case["salts"][0])
+    b = _interp(subs, case["salts"][1])
+    labels = set()
+    for sub, ra, rb in zip(subs, a, b):
+        what = sub.get("cls", sub["kind"])
+        labels.add(what)
+        if ra.startswith("raised:") or rb.startswith("raised:"):
+            ta, tb = ra.split(":")[1] if ra.startswith("raised:") else "ok", rb.split(":")[1] if rb.startswith("raised:") else "ok"
+            require(ta == tb, "interpreters:one-raises", "%s: PYTHONHASHSEED=%s -> %s, =%s -> %s" % (what, case["salts"][0], ra[:120], case["salts"][1], rb[:120]), dict(what=what))
+            continue
+        if ra != rb:
+            import json
+            da, db = json.loads(ra), json.loads(rb)
+            where = "?"
+            if isinstance(da, list) and isinstance(db, list):
+                for xa, xb in zip(da, db):
+                    if xa != xb:
+                        where = str(xa[0] if isinstance(xa, list) and xa else xa)[:60]
+                        break
+            raise Violation("interpreters:models-differ:" + what,
+                            "%s fitted in two interpreters (PYTHONHASHSEED=%s and %s) on the same data with the same parameters and NumPy seed differs at %r" % (
+                                what, case["salts"][0], case["salts"][1], where), dict(what=what, label_kind=sub.get("label_kind")))
+    return Outcome(sorted(labels) + ["subcases=%d" % len(subs)], True)
+
+
+@st.composite
+def _interp_cases(draw, tier="quick"):
+    subs = []
+    for _ in range(draw(st.integers(3, 5))):
+        kind = draw(st.sampled_from(["permutation", "permutation", "classifier", "registry", "registry"]))
+        if kind == "registry":
+            name = draw(st.sampled_from(["CategoriesToIntegers", "TraceableCountVectorizer", "TraceableTfidfVectorizer", "CategoriesToIntegers"] + sorted(R.ENTRIES)))
+            entry = R.ENTRIES[name]
+            subs.append(dict(kind="registry", cls=name, spec=R.spec_for(name, draw, draw(st.integers(0, 11))), data=entry.data(draw), seed=draw(st.integers(0, 2**31 - 10))))
+            continue
+        k = draw(st.integers(2, 8))
+        words = draw(st.lists(st.sampled_from(WORDS), min_size=k, max_size=k, unique=True))
+        n = draw(st.integers(k, 16))
+        z = [draw(st.integers(0, k - 1)) for _ in range(n)]
+        for i in range(k):
+            z[i] = i
+        z = list(draw(st.permutations(z)))
+        sub = dict(kind=kind, label_kind=draw(st.sampled_from(["str-object", "str-fixed"])), words=words, z=z,
+                   random_state=draw(st.one_of(st.none(), st.integers(0, 50))), seed=draw(st.integers(0, 2**31 - 10)))
+        if kind == "classifier":
+            centres = [[draw(st.integers(-20, 20)) / 2.0, draw(st.integers(-20, 20)) / 2.0] for _ in range(k)]
+            sub["X"] = [[centres[zi][0] + draw(st.integers(-8, 8)) / 8.0, centres[zi][1] + draw(st.integers(-8, 8)) / 8.0] for zi in z]
+        subs.append(sub)
+    salts = draw(st.lists(st.integers(1, 4000), min_size=2, max_size=2, unique=True))
+    return dict(subs=subs, salts=salts)
+
+
 def _clause(name):
     heavy = name in ("ConstraintKMeans", "ApproximateNMFPredictor", "DecisionTreeLogisticRegression", "ClassifierAfterKMeans", "PiecewiseClassifier", "PiecewiseRegressor")
     return Clause("refit:" + name, check_refit, strategy=lambda tier, n=name: _refit_cases(n, tier), quick=60 if heavy else 100,
@@ -122,6 +198,8 @@ def _clause(name):
 
 
 CLAUSES = [_clause(n) for n in sorted(R.ENTRIES)] + [
+    Clause("interpreters", check_interpreters, strategy=lambda tier: _interp_cases(tier), quick=32, thorough=400, quick_shards=16, thorough_shards=16,
+           doc="the same fits in two fresh interpreters with different PYTHONHASHSEED give the same models (string labels, tokens, categories)"),
     Clause("random-state", check_random_state, strategy=lambda tier: _rs_cases(tier), quick=300, thorough=5000, quick_shards=2,
            doc="int random_state documented as deterministic (KMeansL1L2) => independent of the global seed; reported for three other classes"),
 ]
